@@ -767,6 +767,29 @@ func (h *harness) doOp(st *kernel.Step) {
 			s = &channel.State{ID: h.params.ID(), App: h.params.App, Version: 1,
 				Allocation: gen.Allocation(r, gen.RandShape(r, h.n)), Data: channel.NoData()}
 		}
+		// Neither operation validates the state (the chain decides what the
+		// progressed state is): besides a successor it may carry the current
+		// version with other content (the peer progressed an older registered
+		// state to a rival of ours), be the current state once more (an event
+		// delivered twice, late) or lie several versions ahead.
+		switch pv := kernel.Derive(uint64(st.Int("r")), "prog-ver", h.step) % 100; {
+		case pv < 15 && s.Version > 0:
+			s.Version--
+			h.res.Count("probe.progress-to-rival-of-current-version", 1)
+		case pv < 27:
+			var c *channel.State
+			if _, pan := h.call(func() error {
+				if cs := h.m.State(); cs != nil {
+					c = cs.Clone()
+				}
+				return nil
+			}); !pan && c != nil {
+				s = c
+				h.res.Count("probe.progress-to-current-state-again", 1)
+			}
+		case pv < 35:
+			s.Version += 1 + pv%5
+		}
 		if op == "set-progressing" {
 			want := h.ph == channel.Registered || h.ph == channel.Progressing || h.ph == channel.Progressed
 			err, pan := h.call(func() error { return h.m.SetProgressing(s) })
